@@ -6,7 +6,7 @@ it on every run.  `ensures` adds the property-level postconditions (taken from p
 import z3
 from pyvc import terms as T
 from pyvc.values import *  # noqa
-from pyvc.world import Contract, LoopSpec
+from pyvc.world import Contract, LoopSpec, closed_form, spec_eval
 from .preds import prove_wf, prove_wfA, layer_dom, layer_cod
 
 CONTRACTS = {}
@@ -140,3 +140,198 @@ def spec(self, dom):
     self._offsets = ()
     self._layers = RawArrow(dom, dom, [])
 ''', params=lambda ex: ([VObject('monoidal.Id'), ex.sym_ty('dom')], {}))
+
+
+# ---------------------------------------------------------------- monoidal.Diagram.then / tensor
+
+def _p_two_diagrams(ex):
+    self = ex.sym_diagram('self', wf=True)
+    if ex.fork(2) == 0:
+        other = ex.sym_diagram('other', wf=True)
+    else:
+        other = ex.sym_box('other')
+        # formal sums take the cat.Sum / monoidal.Sum route (contracts of C02, not this one)
+        ex.assume(T.bkind(other.t) != T.KINDS['Sum'])
+    return [self, other], {}
+
+
+def _e_then(interp, args, kwargs, result):
+    ex = interp.ex
+    self, other = args
+    other = interp.world.as_diagram(other)
+    ex.prove('C02:then.dom', T.ty_eq(result.dom.t, self.dom.t))
+    ex.prove('C02:then.cod', T.ty_eq(result.cod.t, other.cod.t))
+    ex.prove('C02:then.len', result.boxes.length() == self.boxes.length() + other.boxes.length())
+    prove_wf(ex, 'C01:then', result)
+
+
+def _r_then(interp, args, kwargs, exc):
+    """ill-typed composition is refused: AxiomError only if self.cod != other.dom"""
+    ex = interp.ex
+    self, other = args
+    other = interp.world.as_diagram(other)
+    ex.prove('C01:then.refuses only ill-typed (raised %s)' % exc,
+             z3.And(z3.BoolVal(exc == 'AxiomError'), z3.Not(T.ty_eq(self.cod.t, other.dom.t))))
+
+
+contract('monoidal.Diagram.then', property_ids=('C01', 'C02'), spec='''
+def spec(self, other):
+    other = as_diagram(other)
+    layers = self.layers >> other.layers
+    return RawDiagram(self.dom, other.cod, self.boxes + other.boxes, self.offsets + other.offsets, layers)
+''', params=_p_two_diagrams, ensures=_e_then, on_raise=_r_then)
+
+
+def _e_then_refuses(interp, args, kwargs, result):
+    pass
+
+
+_TENSOR_L0 = closed_form({'layers': """RawArrow(
+    self.dom @ other.dom,
+    (self.layers.boxes[k - 1].cod @ other.dom) if k > 0 else (self.dom @ other.dom),
+    [RawLayer(l._left, l._box, l._right @ other.dom) for l in self.layers.boxes[:k]])"""})
+
+_TENSOR_L1 = closed_form({'layers': """RawArrow(
+    self.dom @ other.dom,
+    (self.cod @ other.layers.boxes[k - 1].cod) if k > 0 else (
+        (self.layers.boxes[len(self) - 1].cod @ other.dom) if len(self) > 0 else (self.dom @ other.dom)),
+    [RawLayer(l._left, l._box, l._right @ other.dom) for l in self.layers.boxes]
+    + [RawLayer(self.cod @ l._left, l._box, l._right) for l in other.layers.boxes[:k]])"""})
+
+
+def _e_tensor(interp, args, kwargs, result):
+    ex = interp.ex
+    self, other = args
+    other = interp.world.as_diagram(other)
+    ex.prove('C02:tensor.dom', T.ty_eq(result.dom.t, T.ty_concat(self.dom.t, other.dom.t)))
+    ex.prove('C02:tensor.cod', T.ty_eq(result.cod.t, T.ty_concat(self.cod.t, other.cod.t)))
+    prove_wf(ex, 'C01:tensor', result)
+
+
+contract('monoidal.Diagram.tensor', property_ids=('C01', 'C02'), spec='''
+def spec(self, other):
+    other = as_diagram(other)
+    dom, cod = self.dom @ other.dom, self.cod @ other.cod
+    mid = (self.layers.boxes[len(self) - 1].cod @ other.dom) if len(self) > 0 else dom
+    end = (self.cod @ other.layers.boxes[len(other) - 1].cod) if len(other) > 0 else mid
+    layers = [RawLayer(l._left, l._box, l._right @ other.dom) for l in self.layers.boxes] \\
+        + [RawLayer(self.cod @ l._left, l._box, l._right) for l in other.layers.boxes]
+    return RawDiagram(dom, cod, self.boxes + other.boxes,
+                      self.offsets + [n + len(self.cod) for n in other.offsets],
+                      RawArrow(dom, end, layers))
+''', params=_p_two_diagrams, ensures=_e_tensor, loops={0: _TENSOR_L0, 1: _TENSOR_L1})
+
+
+def lemma(name, fn, property_ids=()):
+    c = Contract('lemma:' + name, property_ids=property_ids)
+    c.canary = False
+    c.lemma = fn
+    CONTRACTS[c.qualname] = c
+    return c
+
+
+# ---------------------------------------------------------------- monoidal.Diagram.__getitem__
+
+def _p_diagram_getitem(ex):
+    self = ex.sym_diagram('self', wf=True)
+    v = ex.fork(3)
+    if v == 0:
+        key = VSlice(_opt_int(ex, 'start'), _opt_int(ex, 'stop'), NONE)
+    elif v == 1:
+        key = VSlice(NONE, NONE, VInt(-1))
+    else:
+        key = ex.sym_int('key')
+    return [self, key], {}
+
+
+def _e_diagram_getitem(interp, args, kwargs, result):
+    prove_wf(interp.ex, 'C01:getitem', result)
+
+
+contract('monoidal.Diagram.__getitem__', property_ids=('C01', 'C02'), spec='''
+def spec(self, key):
+    if isinstance(key, slice):
+        layers = self.layers[key]
+        return RawDiagram(layers.dom, layers.cod, [l._box for l in layers.boxes],
+                          [len(l._left) for l in layers.boxes], layers)
+    l = self.layers[key]
+    return RawDiagram(l.dom, l.cod, [l._box], [len(l._left)], RawArrow(l.dom, l.cod, [l]))
+''', params=_p_diagram_getitem, ensures=_e_diagram_getitem, on_raise=lambda *a: None)
+
+
+# ---------------------------------------------------------------- monoidal.Diagram.__init__, scan path (C01)
+#
+# `Diagram(dom, cod, boxes, offsets)` without layers: the constructor scans.  Postcondition, from
+# the property statement: if it returns, the stored value satisfies wf -- reading boxes/offsets from
+# dom reaches cod, each box finds its domain at its offset, the layer view agrees.  In particular
+# len(layers[i].left) == offsets[i], which needs 0 <= offset <= width - len(box.dom): python's slice
+# clamping would otherwise accept an out-of-range offset silently.
+
+def _scan_inv_assume(interp, env, k, seq, at_exit):
+    ex = interp.ex
+    dom, boxes, offsets = env.lookup('dom'), env.lookup('boxes'), env.lookup('offsets')
+    tag = T.fresh_name('scan')
+    Al = z3.Function(tag + '.left', T.IntS, T.TyS)
+    Ar = z3.Function(tag + '.right', T.IntS, T.TyS)
+    codk = z3.Const(tag + '.cod', T.TyS)
+    def raw(lst, i):
+        # total element function of an atomic symbolic list (no fork, no IndexError): hypotheses are guarded
+        assert len(lst.segs) == 1 and lst.segs[0][0] == 'sub' and T.int_val(lst.segs[0][2]) == 0
+        return lst.segs[0][1]._elem(i)
+
+    base = ex.register_base(BaseList(
+        tag + '.layers', k, lambda i: VLayer(VTy(Al(i)), raw(boxes, i), VTy(Ar(i))), 'layer'))
+
+    def ldom(i):
+        return T.ty_concat(Al(i), T.bdom(raw(boxes, i).t), Ar(i))
+
+    def lcod(i):
+        return T.ty_concat(Al(i), T.bcod(raw(boxes, i).t), Ar(i))
+    ex.assume_guarded(k == 0, codk == dom.t)
+    ex.assume_guarded(k > 0, ldom(T.I(0)) == dom.t) if T.int_val(k) != 0 and ex.feasible(k > 0) else None
+    if ex.feasible(k > 0):
+        ex.assume_guarded(k > 0, lcod(z3.simplify(k - 1)) == codk)
+    ex.add_qhyp([base], lambda i: [(z3.And(0 <= i, i + 1 < k), lcod(i) == ldom(i + 1))]
+                if T.int_val(k) is None or T.int_val(k) > 1 else [])
+    ex.add_qhyp([base], lambda i: [(z3.And(0 <= i, i < k), z3.Length(Al(i)) == raw(offsets, i).t)])
+    env.set('layers', VArrow(dom, VTy(codk), VList.of_base(base)))
+
+
+def _scan_inv_check(interp, env, k, label, seq):
+    ex = interp.ex
+    dom, boxes, offsets = env.lookup('dom'), env.lookup('boxes'), env.lookup('offsets')
+    layers = env.lookup('layers')
+    ex.prove(label + ':layers.dom == dom', T.ty_eq(layers.dom.t, dom.t))
+    ex.prove(label + ':len(layers) == k', layers.boxes.length() == k)
+    prove_wfA(ex, label, layers)
+
+    def pointwise(i):
+        l = ex.list_at(layers.boxes, i)
+        ex.prove(label + ':layers[i].box == boxes[i]', l.box.t == ex.list_at(boxes, i).t)
+        ex.prove(label + ':len(layers[i].left) == offsets[i]', T.ty_len(l.left.t) == ex.list_at(offsets, i).t)
+    ex.forall(k, pointwise)
+
+
+def _p_diagram_init_scan(ex):
+    n = z3.Int('n')
+    ex.assume(n >= 0)
+    boxes = ex.sym_box_list('boxes', n)
+    offsets = ex.sym_int_list('offsets', n)
+    return [VObject('monoidal.Diagram'), ex.sym_ty('dom'), ex.sym_ty('cod'), boxes, offsets], {}
+
+
+def _e_diagram_init_scan(interp, args, kwargs, obj):
+    ex = interp.ex
+    d = interp.world.record_of('monoidal.Diagram', obj)
+    ex.prove_equal('C01:init.dom stored', d.dom, args[1])
+    ex.prove_equal('C01:init.cod stored', d.cod, args[2])
+    ex.prove_equal('C01:init.boxes stored', d.boxes, args[3])
+    ex.prove_equal('C01:init.offsets stored', d.offsets, args[4])
+    prove_wf(ex, 'C01:init.establishes_wf', d)
+
+
+_c = Contract('monoidal.Diagram.__init__', is_init=True, params=_p_diagram_init_scan, ensures=_e_diagram_init_scan,
+              on_raise=lambda *a: None, property_ids=('C01',),
+              loops={0: LoopSpec(assume=_scan_inv_assume, check=_scan_inv_check)})
+_c.label = 'monoidal.Diagram.__init__[scan]'
+CONTRACTS[_c.label] = _c
